@@ -36,6 +36,9 @@ pub enum ReqRef {
     Used(u16),
     /// an id never issued
     Never(u16),
+    /// the k-th id above the largest request id issued so far (the id the next request would
+    /// get): an implementation that registers a request it did not surface would honour it
+    Next(u8),
 }
 
 #[derive(Clone, Debug, Serialize, Deserialize, PartialEq)]
@@ -256,6 +259,10 @@ impl Model {
                 (*ids[((*i as usize) * ids.len()) >> 16], "outstanding")
             }
             ReqRef::Used(i) if !self.used.is_empty() => (self.used[((*i as usize) * self.used.len()) >> 16], "used"),
+            ReqRef::Next(k) => {
+                let base = self.seen_request_ids.iter().next_back().map(|x| x + 1).unwrap_or(0);
+                (base + (*k as u32 % 3), "never-issued")
+            }
             ReqRef::Never(k) | ReqRef::Outstanding(k) | ReqRef::Used(k) => {
                 let mut id = 5000 + *k as u32;
                 while self.seen_request_ids.contains(&id) {
@@ -818,7 +825,7 @@ fn stream_ref() -> BoxedStrategy<StreamRef> {
 }
 
 fn req_ref() -> BoxedStrategy<ReqRef> {
-    prop_oneof![6 => any::<u16>().prop_map(ReqRef::Outstanding), 2 => any::<u16>().prop_map(ReqRef::Used), 1 => (0u16..4).prop_map(ReqRef::Never)].boxed()
+    prop_oneof![6 => any::<u16>().prop_map(ReqRef::Outstanding), 2 => any::<u16>().prop_map(ReqRef::Used), 1 => (0u16..4).prop_map(ReqRef::Never), 2 => (0u8..3).prop_map(ReqRef::Next)].boxed()
 }
 
 pub fn sop() -> BoxedStrategy<SOp> {
@@ -870,7 +877,7 @@ pub fn case_strategy(max_ops: usize) -> BoxedStrategy<Case> {
         .boxed()
 }
 
-/// the 12-letter alphabet of the bounded-exhaustive enumeration
+/// the 13-letter alphabet of the bounded-exhaustive enumeration
 pub fn alphabet() -> Vec<SOp> {
     let s = StreamRef::Created(0);
     vec![
@@ -885,6 +892,7 @@ pub fn alphabet() -> Vec<SOp> {
         SOp::Accept { req: ReqRef::Outstanding(0) },
         SOp::Reject { req: ReqRef::Outstanding(0) },
         SOp::Accept { req: ReqRef::Used(65535) },
+        SOp::Accept { req: ReqRef::Next(0) },
         SOp::Ping { ts: 0xFFFF_FFFF },
     ]
 }
@@ -934,7 +942,7 @@ pub fn spec() -> PropSpec {
     PropSpec {
         id: "C09",
         level: "exploration",
-        rule: "histories of 1..25 operations over peer messages {connect (3 apps, trailing '/', objectEncoding), createStream, publish (created / zero / unknown stream, 3 keys, modes live/record/append/LIVE/bogus), play (0..3 optional arguments), closeStream, deleteStream, audio, video, @setDataFrame, ping, unknown commands, 11 kinds of malformed argument lists, peer chunk-size change} and application calls {accept / reject with an outstanding, already-used or never-issued id, send audio/video/metadata, finish_playing}; peer messages are encoded by the reference peer and delivered whole or cut in two. Half of the histories start behind an accepted connect + createStream. Plus the bounded-exhaustive enumeration of ALL sequences of length <= 4 (quick) / <= 5 (thorough) over a fixed 12-letter alphabet, from scratch and behind an accepted connect. ModelServer judges clauses (a)-(f) of DESIGN.md C09 and follows the observation where the statement is silent; refused calls are additionally checked by a twin run without them. Non-trivial = the history contains an accepted connect and (a request out of protocol order, or a stale/forged request id, or media on a stream without an accepted publish); distinct = distinct history",
+        rule: "histories of 1..25 operations over peer messages {connect (3 apps, trailing '/', objectEncoding), createStream, publish (created / zero / unknown stream, 3 keys, modes live/record/append/LIVE/bogus), play (0..3 optional arguments), closeStream, deleteStream, audio, video, @setDataFrame, ping, unknown commands, 11 kinds of malformed argument lists, peer chunk-size change} and application calls {accept / reject with an outstanding, already-used or never-issued id, send audio/video/metadata, finish_playing}; peer messages are encoded by the reference peer and delivered whole or cut in two. Half of the histories start behind an accepted connect + createStream. Plus the bounded-exhaustive enumeration of ALL sequences of length <= 4 (quick) / <= 5 (thorough) over a fixed 13-letter alphabet, from scratch and behind an accepted connect. ModelServer judges clauses (a)-(f) of DESIGN.md C09 and follows the observation where the statement is silent; refused calls are additionally checked by a twin run without them. Non-trivial = the history contains an accepted connect and (a request out of protocol order, or a stale/forged request id, or media on a stream without an accepted publish); distinct = distinct history",
         assumptions: vec![
             "ModelServer is written from the statement; where it is silent (second connect with another app, createStream before connect, play accepted on a publishing stream or vice versa, requests on never-created streams, bogus publish mode, close after finish_playing, malformed messages) nothing is asserted and the model follows the observation",
             "each peer message is delivered in its own call(s) so that an Err (which discards the results of its call) loses only that message's observations",
